@@ -57,6 +57,15 @@ def scenario(gen, rng):
         arr.append((t, datagram(gen, rng)))
     if arr and rng.random() < 0.3:
         arr.append((arr[0][0] + rng.choice([0, 1]), arr[0][1]))        # duplicate
+    if arr and rng.random() < 0.25:
+        # the same console answers again and ONE field differs (it was renamed on the touch screen between two requests; a second console
+        # behind the same address; ...): a different answer, reported beside the first
+        parts = arr[0][1].split(b",")
+        k = rng.randrange(len(parts))
+        if parts[k] not in (b"AirTouch4", b"AirTouch5"):
+            parts[k] = parts[k] + rng.choice([b"2", b" East", b"x"])
+            t2 = arr[0][0] + rng.choice([0, 1, 4])
+            arr.append((t2 + 1 if t2 % 4 == 0 else t2, b",".join(parts)))      # (never exactly on a request / return instant)
     arr.sort(key=lambda a: a[0])
     return arr
 
